@@ -20,7 +20,8 @@ from vf.props import c20 as cli
 ID = "C09"
 RULE = ("observation = sha1 of the canonical tree (or CLI stdout). Dimensions, each with its own counter: (1) history: same scanner "
         "repeated x3, fresh scanner, same scanner after 50 other scans incl. the same inputs at other depth limits, and the FIRST "
-        "returned tree re-canonicalised afterwards (must not have changed); (2) hash seeds: N subprocesses with distinct "
+        "returned tree re-canonicalised afterwards (must not have changed), and values met inside earlier results scanned on their own "
+        "by the re-used scanner versus a fresh one; (2) hash seeds: N subprocesses with distinct "
         "PYTHONHASHSEED scan a corpus built from tie situations (every case-variant keyword pair inside one shipped keyword file, "
         "keywords listed in >=2 files, equal-span results of decoders from different modules) under 4 registry configurations "
         "(default, include lists, exclude list); (3) directory order: os.scandir/os.listdir return seeded random permutations "
